@@ -807,7 +807,11 @@ class Interp:
                         a2.append(int(x))
                     else:
                         a2.append(x)
+                k = {kk: ((lambda *aa, _x=v, **kw2: I2.call(_x, list(aa), kw2)) if isinstance(v, (Bound, ClsMethod, Closure, FuncInfo, BT, ClassInfo)) else v)
+                     for kk, v in k.items()}
                 r = host(*a2, **k)
+                if m.name == "itertools" and name == "groupby":
+                    return [(key, list(grp)) for key, grp in r]
                 if m.name == "itertools":
                     return list(r)
                 return r
@@ -958,6 +962,21 @@ class Interp:
             return swap
         if name == "expand_dims":
             return lambda a, axis: NP.expand_dims(a, axis)
+        if name in ("isin", "in1d"):
+            def isin(element, test_elements, **kw):
+                if isinstance(element, AArr) or isinstance(test_elements, AArr):
+                    raise AnalysisAbort("np.isin on array data")
+                tests = I.iterate(test_elements)
+                return NP.IdxArr([any(y is x or I.py_eq(y, x) for x in tests) for y in I.iterate(element)])
+            return isin
+        if name in ("flatnonzero", "nonzero", "argwhere"):
+            def fnz(a):
+                if not isinstance(a, NP.IdxArr) or not all(isinstance(x, bool) for x in a.positions):
+                    raise AnalysisAbort(f"np.{name} of something else than a boolean vector of item tests")
+                tainted = isinstance(getattr(a, "src", None), ItemList)
+                pos = NP.IdxArr([TInt(i) for i, x in enumerate(a.positions) if x])
+                return pos if name == "flatnonzero" else (pos,) if name == "nonzero" else (_ for _ in ()).throw(AnalysisAbort("np.argwhere of a vector"))
+            return fnz
         if name == "reshape":
             return lambda a, shape, **kw: NP.reshape(a, shape if isinstance(shape, (tuple, list)) else (shape,)) if isinstance(a, AArr) else (_ for _ in ()).throw(AnalysisAbort("np.reshape of a non-array"))
         if name == "broadcast_to":
@@ -1796,17 +1815,18 @@ class Interp:
         return self.eval(n.body if self.truth(self.eval(n.test, fr)) else n.orelse, fr)
 
     def e_BoolOp(self, n, fr):
+        last = len(n.values) - 1        # the last operand is the result as it is: Python does not test its truth
         if isinstance(n.op, ast.And):
             v = True
-            for e in n.values:
+            for i, e in enumerate(n.values):
                 v = self.eval(e, fr)
-                if not self.truth(v):
+                if i < last and not self.truth(v):
                     return v
             return v
         v = False
-        for e in n.values:
+        for i, e in enumerate(n.values):
             v = self.eval(e, fr)
-            if self.truth(v):
+            if i < last and self.truth(v):
                 return v
         return v
 
